@@ -364,9 +364,20 @@ func isFinishReasonMapper(f *ssa.Function) bool {
 		if !strings.HasSuffix(fnPkgPath(f), pkgAnthropic) || !sigIs(f, []string{"string"}, []string{"string"}) {
 			return false
 		}
-		return mentionsConst(f, "tool_calls") && mentionsConst(f, "tool_use")
+		if mentionsConst(f, "tool_calls") && mentionsConst(f, "tool_use") {
+			return true
+		}
+		// the same mapping held in a table
+		if theCtx != nil {
+			if tab, _, ok := theCtx.lookupHelper(f); ok && tab["tool_calls"] == "tool_use" {
+				return true
+			}
+		}
+		return false
 	})
 }
+
+var theCtx *Ctx
 
 func attemptFuncIn(c *Ctx, pkg string) *ssa.Function {
 	var out []*ssa.Function
